@@ -7,7 +7,7 @@ import (
 	"errors"
 	"fmt"
 	"io"
-	"math"
+	"math/big"
 	"sort"
 	"strconv"
 	"strings"
@@ -377,7 +377,11 @@ intLiteral
 	{
 		// remove separator "_"s
 		intStr := strings.Replace($1.Literal, "_", "", -1)
-		n, _ := strconv.ParseInt(intStr, 10, 64)
+		n, err := strconv.ParseInt(intStr, 10, 64)
+		if err != nil {
+			// NOTE: literal which cannot be represented by int must not be replaced with other values
+			yylex.Error(fmt.Sprintf("invalid int literal `%s`: %s", $1.Literal, err))
+		}
 		$$ = &ast.IntLiteral{
 			Token: $1.Literal,
 			Value: n,
@@ -390,7 +394,11 @@ intLiteral
 		lit := strings.Replace($1.Literal, "_", "", -1)
 		// remove prefix "0x"
 		intStr := lit[2:]
-		n, _ := strconv.ParseInt(intStr, 16, 64)
+		n, err := strconv.ParseInt(intStr, 16, 64)
+		if err != nil {
+			// NOTE: literal which cannot be represented by int must not be replaced with other values
+			yylex.Error(fmt.Sprintf("invalid int literal `%s`: %s", $1.Literal, err))
+		}
 		$$ = &ast.IntLiteral{
 			Token: $1.Literal,
 			Value: n,
@@ -403,7 +411,11 @@ intLiteral
 		lit := strings.Replace($1.Literal, "_", "", -1)
 		// remove prefix "0o"
 		intStr := lit[2:]
-		n, _ := strconv.ParseInt(intStr, 8, 64)
+		n, err := strconv.ParseInt(intStr, 8, 64)
+		if err != nil {
+			// NOTE: literal which cannot be represented by int must not be replaced with other values
+			yylex.Error(fmt.Sprintf("invalid int literal `%s`: %s", $1.Literal, err))
+		}
 		$$ = &ast.IntLiteral{
 			Token: $1.Literal,
 			Value: n,
@@ -416,7 +428,11 @@ intLiteral
 		lit := strings.Replace($1.Literal, "_", "", -1)
 		// remove prefix "0b"
 		intStr := lit[2:]
-		n, _ := strconv.ParseInt(intStr, 2, 64)
+		n, err := strconv.ParseInt(intStr, 2, 64)
+		if err != nil {
+			// NOTE: literal which cannot be represented by int must not be replaced with other values
+			yylex.Error(fmt.Sprintf("invalid int literal `%s`: %s", $1.Literal, err))
+		}
 		$$ = &ast.IntLiteral{
 			Token: $1.Literal,
 			Value: n,
@@ -429,13 +445,15 @@ intLiteral
 		lit := strings.Replace($1.Literal, "_", "", -1)
 		// NOTE: ToLower is nesessary (to split by both e and E)
 		toks := strings.Split(strings.ToLower(lit), "e")
-		// NOTE: cast float to deal with minus exp (i.e. `100e-2 == 1`)
-		val, _ := strconv.ParseFloat(toks[0], 64)
-		// NOTE: cannot use ParseInt (math.Pow requires float)
-		exp, _ := strconv.ParseFloat(toks[1], 64)
+		// NOTE: calculate exactly (float cannot represent ints larger than 2**53)
+		// and deal with minus exp (i.e. `100e-2 == 1`)
+		n, err := parseExpInt(toks[0], toks[1])
+		if err != nil {
+			yylex.Error(fmt.Sprintf("invalid int literal `%s`: %s", $1.Literal, err))
+		}
 		$$ = &ast.IntLiteral{
 			Token: $1.Literal,
-			Value: int64(val * math.Pow(10, exp)),
+			Value: n,
 			Src: yylex.(*Lexer).Source,
 		}
 	}
@@ -445,7 +463,10 @@ floatLiteral
 	{
 		// remove separator "_"s
 		floatStr := strings.Replace($1.Literal, "_", "", -1)
-		n, _ := strconv.ParseFloat(floatStr, 64)
+		n, err := strconv.ParseFloat(floatStr, 64)
+		if err != nil {
+			yylex.Error(fmt.Sprintf("invalid float literal `%s`: %s", $1.Literal, err))
+		}
 		$$ = &ast.FloatLiteral{
 			Token: $1.Literal,
 			Value: n,
@@ -456,13 +477,15 @@ floatLiteral
 	{
 		// remove separator "_"s
 		lit := strings.Replace($1.Literal, "_", "", -1)
-		// NOTE: ToLower is nesessary (to split by both e and E)
-		toks := strings.Split(strings.ToLower(lit), "e")
-		val, _ := strconv.ParseFloat(toks[0], 64)
-		exp, _ := strconv.ParseFloat(toks[1], 64)
+		// NOTE: parse whole literal at once to obtain the nearest float
+		// (`val * math.Pow(10, exp)` rounds twice)
+		n, err := strconv.ParseFloat(lit, 64)
+		if err != nil {
+			yylex.Error(fmt.Sprintf("invalid float literal `%s`: %s", $1.Literal, err))
+		}
 		$$ = &ast.FloatLiteral{
 			Token: $1.Literal,
-			Value: float64(val * math.Pow(10, exp)),
+			Value: n,
 			Src: yylex.(*Lexer).Source,
 		}
 	} 
@@ -1144,7 +1167,10 @@ strLiteral
 	{
 		// unquote escape sequences here
 		// NOTE: backquotes are unwraped in Unquote
-		unquoted, _ := strconv.Unquote($1.Literal)
+		unquoted, err := strconv.Unquote($1.Literal)
+		if err != nil {
+			yylex.Error(fmt.Sprintf("invalid str literal %s: %s", $1.Literal, err))
+		}
 		$$ = &ast.StrLiteral{
 			Token: $1.Literal,
 			Value: unquoted,
@@ -1246,7 +1272,10 @@ embeddedStr
 	{
 		// unquote escape sequences here
 		// NOTE: doublequotes are unwraped in Unquote
-		unquoted, _ := strconv.Unquote("\""+$2.Literal[1:])
+		unquoted, err := strconv.Unquote("\""+$2.Literal[1:])
+		if err != nil {
+			yylex.Error(fmt.Sprintf("invalid str literal %s: %s", $2.Literal, err))
+		}
 		$$ = &ast.EmbeddedStr{
 			Token: $1.Token,
 			Former: $1,
@@ -1260,7 +1289,10 @@ formerStrPiece
 	{
 		// unquote escape sequences here
 		// NOTE: doublequotes are unwraped in Unquote
-		unquoted, _ := strconv.Unquote("\""+$2.Literal[1:len($2.Literal)-2]+"\"")
+		unquoted, err := strconv.Unquote("\""+$2.Literal[1:len($2.Literal)-2]+"\"")
+		if err != nil {
+			yylex.Error(fmt.Sprintf("invalid str literal %s: %s", $2.Literal, err))
+		}
 		$$ = &ast.FormerStrPiece{
 			Token: $1.Token,
 			Former: $1,
@@ -1272,7 +1304,10 @@ formerStrPiece
 	{
 		// unquote escape sequences here
 		// NOTE: doublequotes are unwraped in Unquote
-		unquoted, _ := strconv.Unquote($1.Literal[:len($1.Literal)-2]+"\"")
+		unquoted, err := strconv.Unquote($1.Literal[:len($1.Literal)-2]+"\"")
+		if err != nil {
+			yylex.Error(fmt.Sprintf("invalid str literal %s: %s", $1.Literal, err))
+		}
 		$$ = &ast.FormerStrPiece{
 			Token: $1.Literal,
 			Former: nil,
@@ -2122,6 +2157,32 @@ func Parse(src *Reader) (*ast.Program, error) {
 	}
 
 	return program, nil
+}
+
+// parseExpInt calculates exact value of int literal with exponent (mantissa * 10**exp).
+func parseExpInt(mantissa, exp string) (int64, error) {
+	m, ok := new(big.Int).SetString(mantissa, 10)
+	if !ok {
+		return 0, errors.New("invalid mantissa")
+	}
+
+	e, err := strconv.ParseInt(exp, 10, 64)
+	// NOTE: 10**exp with huge exp is never represented by int (and takes time to calculate)
+	if err != nil || e > 1000 || e < -1000 {
+		return 0, errors.New("exponent out of range")
+	}
+
+	if e >= 0 {
+		m.Mul(m, new(big.Int).Exp(big.NewInt(10), big.NewInt(e), nil))
+	} else {
+		// NOTE: fractions are truncated (i.e. `15e-1 == 1`)
+		m.Quo(m, new(big.Int).Exp(big.NewInt(10), big.NewInt(-e), nil))
+	}
+
+	if !m.IsInt64() {
+		return 0, errors.New("value out of range")
+	}
+	return m.Int64(), nil
 }
 
 func tryParse(src io.Reader, l *Lexer) (a ast.Node, e error) {
